@@ -230,6 +230,8 @@ pub struct SstString {
     /// ExtRst block bytes
     pub ext: Vec<u8>,
 }
+/// or-ed into `SstString::runs`: the string carries the fExtSt flag and a zero-length ExtRst block (cbExtRst = 0 is legal)
+pub const EMPTY_EXT: usize = 1 << 20;
 impl SstString {
     pub fn plain(s: &str) -> SstString { SstString { text: s.into(), runs: 0, ext: vec![] } }
 }
@@ -277,7 +279,7 @@ pub fn sst_records(ch: &mut Chooser, strings: &[SstString], total_refs: u32) -> 
             first = false;
             k += n;
         }
-        for r in 0..s.runs { atoms.push((Atom::Bytes(vec![r as u8, 0, 1, 0]), CutKind::Plain)); }
+        for r in 0..(s.runs & !EMPTY_EXT) { atoms.push((Atom::Bytes(vec![r as u8, 0, 1, 0]), CutKind::Plain)); }
         for (j, b) in s.ext.iter().enumerate() { atoms.push((Atom::Bytes(vec![*b]), if j == 0 || true { CutKind::Plain } else { CutKind::No })); }
     }
     // chosen cuts
@@ -323,12 +325,13 @@ pub fn sst_records(ch: &mut Chooser, strings: &[SstString], total_refs: u32) -> 
                     // the header's fHighByte describes the first character segment
                     let first_wide = if u.is_empty() { false } else { seg_wide[i + 1].unwrap_or(false) };
                     let mut flags = first_wide as u8;
-                    if s.runs > 0 { flags |= 0x08; }
-                    if !s.ext.is_empty() { flags |= 0x04; }
+                    let (runs, empty_ext) = (s.runs & !EMPTY_EXT, s.runs & EMPTY_EXT != 0);
+                    if runs > 0 { flags |= 0x08; }
+                    if !s.ext.is_empty() || empty_ext { flags |= 0x04; }
                     let mut h = (u.len() as u16).to_le_bytes().to_vec();
                     h.push(flags);
-                    if s.runs > 0 { h.extend((s.runs as u16).to_le_bytes()); }
-                    if !s.ext.is_empty() { h.extend((s.ext.len() as u32).to_le_bytes()); }
+                    if runs > 0 { h.extend((runs as u16).to_le_bytes()); }
+                    if !s.ext.is_empty() || empty_ext { h.extend((s.ext.len() as u32).to_le_bytes()); }
                     h
                 }
                 Atom::Char(_, u) => pack(u, cur_wide),
